@@ -1,5 +1,6 @@
 import KoordVerif.Model.C20
 import KoordVerif.Model.C20Hist
+import KoordVerif.Model.C20Race
 import KoordVerif.Generated.C20
 /-
 Tie lemmas for C20: the guard structure extracted from /repo's current source
@@ -61,6 +62,16 @@ theorem tie_cache_critical_sections :
     check as atomic, which is what either lock kind is meant to give.) -/
 theorem tie_first_use_sync :
     (C20.availLockKind = "RLock" ∨ C20.availLockKind = "Lock") ∧ C20.availSyncsOnFirstUse = true := by decide
+
+/-- IsCfgAvailable's critical sections: either check–read–sync inside ONE section (the pinned source) or `available` is
+    checked again under the lock that covers the sync — the two shapes for which `lazy_init_tracks_latest` holds; the
+    split shape (check; unlock; read; lock; sync) is the one of `lazy_init_split_counterexample`. -/
+theorem tie_lazy_init_sections : (shapeOf C20.availSections).map LazyShape.safe = some true := by decide
+
+/-- every calculate*Merged decodes its section text with json.Unmarshal: the WHOLE text must be exactly one JSON value
+    (`SecIn.bad` otherwise); a stream decoder (json.NewDecoder(..).Decode) would accept and apply a valid prefix. -/
+theorem tie_section_decoders :
+    C20.sectionDecoders = ["json.Unmarshal", "json.Unmarshal", "json.Unmarshal", "json.Unmarshal", "json.Unmarshal"] := by decide
 
 /-- triggerAllNodeEnqueue adds one request per listed node, unfiltered — `cmSync` drains `w.nodes.map (·.1)`. -/
 theorem tie_enqueue_all_nodes : C20.enqueueAllShape = "range Items: q.Add" := by decide
